@@ -1,7 +1,7 @@
 (* Engine 1: scripts of world operations over two worlds; decoder, interpreter and observation
    encoders.  The Rust harness (harness/src/world_engine.rs) implements the same protocol. *)
 From Coq Require Import List NArith ZArith Bool.
-From HecsV Require Import Base.ListN Model.EntityBits Model.Types Model.Entities Model.World Model.Query Model.Containers Model.Guards.
+From HecsV Require Import Base.ListN Model.EntityBits Model.Types Model.Entities Model.World Model.Query Model.Containers Model.Guards Model.Serde.
 Import ListNotations.
 Open Scope N_scope.
 
@@ -670,6 +670,102 @@ Definition exec_guard (st : est) (opc : N) (l : list N) : est * list N * list N 
   | _, _ => (st, [], [])
   end.
 
+(* ---- serialisation round trips and malformed input (opcode 90) ---- *)
+Definition HANDLED : list tid := [1; 2; 3].
+
+Fixpoint enc_tok (t : tok) : list N :=
+  match t with
+  | TN n => [0; n]
+  | TL a l => 1 :: a :: lenN l :: (fix go (l : list tok) := match l with [] => [] | x :: r => enc_tok x ++ go r end) l
+  | TM a l => 2 :: a :: lenN l :: (fix go (l : list (tok * tok)) :=
+                                     match l with [] => [] | (k, v) :: r => enc_tok k ++ enc_tok v ++ go r end) l
+  end.
+
+(* mutate the node with pre-order index [idx] (map keys and values count); returns the remaining index
+   (None once the mutation has been applied) *)
+Definition mutate_here (t : tok) (kind param : N) : tok :=
+  match kind with
+  | 0 => TN param
+  | 1 => match t with TL a l => TL a (removelastN l) | TM a l => TM a (removelastN l) | _ => t end
+  | 2 => match t with
+         | TL a (x :: r) => TL a ((x :: r) ++ [x])
+         | TM a (x :: r) => TM a ((x :: r) ++ [x])
+         | _ => t
+         end
+  | 3 => match t with TL _ l => TL param l | TM _ l => TM param l | _ => t end
+  | 4 => match t with TL a (x :: y :: r) => TL a (y :: x :: r) | _ => t end
+  | 5 => match t with TN n => TN ((n + param) mod 18446744073709551616) | _ => t end
+  | _ => TL 0 []
+  end.
+
+Fixpoint mutate (t : tok) (idx : option N) (kind param : N) : tok * option N :=
+  match idx with
+  | None => (t, None)
+  | Some 0 => (mutate_here t kind param, None)
+  | Some i =>
+      let i' := Some (N.pred i) in
+      match t with
+      | TN _ => (t, i')
+      | TL a l =>
+          let '(l', r) := (fix go (l : list tok) (idx : option N) : list tok * option N :=
+                             match l with
+                             | [] => ([], idx)
+                             | x :: rest => let '(x', i1) := mutate x idx kind param in
+                                            let '(rest', i2) := go rest i1 in (x' :: rest', i2)
+                             end) l i' in (TL a l', r)
+      | TM a l =>
+          let '(l', r) := (fix go (l : list (tok * tok)) (idx : option N) : list (tok * tok) * option N :=
+                             match l with
+                             | [] => ([], idx)
+                             | (k, v) :: rest => let '(k', i1) := mutate k idx kind param in
+                                                 let '(v', i2) := mutate v i1 kind param in
+                                                 let '(rest', i3) := go rest i2 in ((k', v') :: rest', i3)
+                             end) l i' in (TM a l', r)
+      end
+  end.
+
+Fixpoint apply_muts (t : tok) (l : list N) (fuel : nat) : tok * list N :=
+  match fuel with
+  | O => (t, l)
+  | S f => match l with
+           | idx :: kind :: param :: r => (fst (mutate t (Some idx) kind param), r)
+           | _ => (t, l)
+           end
+  end.
+
+Fixpoint apply_nmuts (t : tok) (n : nat) (l : list N) : tok * list N :=
+  match n with
+  | O => (t, l)
+  | S m => match l with
+           | idx :: kind :: param :: r => apply_nmuts (fst (mutate t (Some idx) kind param)) m r
+           | _ => (t, [])
+           end
+  end.
+
+Definition enc_world_handled (u : universe) (w : world) : list N :=
+  let it := sort_by (fun p => enc_entity (fst p)) (w_iter w) in
+  lenN it :: concat (map (fun p => enc_entity (fst p) :: enc_vals u (filter (fun c => mem_tid (fst c) HANDLED) (snd p))) it).
+
+Definition run_serde (st : est) (w : world) (fmt reader : N) (q : query) (nmut : N) (l : list N) : list N * list N :=
+  let u := e_u st in
+  let tree := if N.eqb fmt 0 then row_ser HANDLED w q else col_ser HANDLED w q in
+  let enc := enc_tok tree in
+  let '(tree', rest) := apply_nmuts tree (N.to_nat nmut) l in
+  let res :=
+    if N.eqb fmt 0 then
+      match row_de u HANDLED reader tree' with
+      | DOk (w2, _) => 0 :: enc_world_handled u w2
+      | DErr => [1]
+      | DPanic _ => [9]
+      end
+    else
+      match col_de u HANDLED reader tree' with
+      | DOk w2 => 0 :: enc_world_handled u w2
+      | DErr => [1]
+      | DPanic _ => [9]
+      end in
+  ((if lengths_ok tree then 1 else 0) :: lenN enc :: enc ++ res, rest).
+
 (* one operation; returns the new state, the rest of the script and the observation *)
 Definition exec_op (st : est) (opc : N) (l : list N) : est * list N * list N :=
   let u := e_u st in
@@ -696,6 +792,20 @@ Definition exec_op (st : est) (opc : N) (l : list N) : est * list N * list N :=
                     let '(w', d) := w_clear (ws_world s) in
                     (set_w st wi w' 2, args, out_ok u [] d)
         | None => (st, args, [8])
+        end
+    | 90 =>
+        match args with
+        | fmt :: reader :: _ :: r1 =>
+            let '(q, r2) := dec_ast r1 in
+            match r2 with
+            | nmut :: r3 =>
+                match get_w st wi with
+                | None => (st, dropN (3 * nmut) r3, [8])
+                | Some w => let '(obs, rest) := run_serde st w fmt reader q nmut r3 in (st, rest, obs)
+                end
+            | [] => (st, [], [])
+            end
+        | _ => (st, [], [])
         end
     | 30 =>
         match args with
